@@ -110,6 +110,17 @@ def directed_cases(tier):
             spec = {"rsize": rsize, "procs": [{"arch": {"R": 2, "N": 0, "M": 0, "L": 0, "O": 5, "ops": ops, "mode": "ha", "rsize": rsize}, "prog": prog}],
                     "inputs": 0, "outputs": 0, "bonds": []}
             out.append((spec, []))
+    # two registers only (R = 1: register fields of one bit): every two-operand opcode in both directions
+    for rsize in (8, 16):
+        for grp in (TWO[0:6], TWO[6:]):
+            prog = []
+            for op in grp:
+                prog += ["rset r0 9", "rset r1 5", "%s r1 r0" % op, "rset r0 200", "rset r1 77", "%s r0 r1" % op]
+            prog.append("j %d" % len(prog))
+            ops = sorted(set(l.split()[0] for l in prog) | {"nop", "j"})
+            spec = {"rsize": rsize, "procs": [{"arch": {"R": 1, "N": 0, "M": 0, "L": 0, "O": 6, "ops": ops, "mode": "ha", "rsize": rsize}, "prog": prog}],
+                    "inputs": 0, "outputs": 0, "bonds": []}
+            out.append((spec, []))
     # word width decided by the jumps (O > register size): immediates and register fields of the other opcodes sit above padding;
     # forward and backward jumps to the first, a middle and the last instruction
     for O in (10, 12):
